@@ -160,6 +160,10 @@ func (u *uploader) createReport(start time.Time, expiryDate string, countFiles [
 		}
 		prog := findProgReport(x.Meta, report)
 		for k, v := range x.Count {
+			// Names become object keys of the report's JSON, where bytes that
+			// are not valid UTF-8 are replaced: replace them here, so that
+			// names that become equal add up instead of overwriting each other.
+			k = strings.ToValidUTF8(k, "\uFFFD")
 			if counter.IsStackCounter(k) {
 				// stack
 				prog.Stacks[k] = addSaturating(prog.Stacks[k], v)
